@@ -6,7 +6,7 @@ From CKT Require Import Common.Base Common.Circ Common.QSim Model.ResetPasses Mo
   Proofs.ResetPassesP Proofs.ResetPassesSem Proofs.ResetSimP.
 Close Scope Q_scope.
 
-Definition Zq (q : nat) (v : vec) : Prop := forall i, Nat.testbit i q = true -> vget v i = azero.
+Definition Zq (q : nat) (v : vec) : Prop := qZ q v.   (* Model/ResetSim.v *)
 
 (* ---- vectors ---- *)
 Lemma tabulate_length v f : length (tabulate v f) = length v.
